@@ -19,6 +19,7 @@
 
 using namespace sim;
 
+static void guardHostDepthReset();
 namespace {
 struct Mx { bool inited, destroyed, recursive; int owner, depth; std::vector<int> waiters; };
 struct Cv { bool destroyed; std::vector<int> waiters; };
@@ -31,7 +32,7 @@ std::vector<Th*> ths;
 uint64_t cond_after_destroy = 0;
 int nproc_knob = 4;
 
-void resetSync() { mxs.clear(); cvs.clear(); sms.clear(); for (Th* t : ths) delete t; ths.clear(); cond_after_destroy = 0; }
+void resetSync() { guardHostDepthReset(); mxs.clear(); cvs.clear(); sms.clear(); for (Th* t : ths) delete t; ths.clear(); cond_after_destroy = 0; }
 struct Reg { Reg() { addResetHook(resetSync); } } reg;
 
 struct HostG { HostG() { g_host_depth_export++; } ~HostG() { g_host_depth_export--; } };
@@ -293,21 +294,22 @@ long __wrap_syscall(long no, ...) {
 }
 
 // ---------------------------------------------------------------- function-local static guards
-// A fiber pre-empted inside the initialiser of a function-local static would make a second fiber "recurse" into the guard on
-// the same OS thread (libstdc++ aborts).  Model the guard as a sim mutex: byte 0 = initialised flag.
+// The initialiser of a function-local static runs once per PROCESS, not once per run.  To keep runs independent of their
+// position in the process, the first initialisation that happens inside a task is executed in host mode: no pre-emption,
+// no yield points counted, allocations from malloc (they legitimately outlive the run).  Byte 0 of the guard = initialised.
+static int guardHostDepth = 0;
+}
+static void guardHostDepthReset() { guardHostDepth = 0; }
+extern "C" {
 int __wrap___cxa_guard_acquire(uint64_t* gd) {
-  if (!inTask()) { if (*(volatile char*)gd) return 0; return 1; }
-  HostG h;
   if (*(volatile char*)gd) return 0;
-  mutexLock(gd);
-  if (*(volatile char*)gd) { mutexUnlock(gd); return 0; }
+  if (inTask()) { g_host_depth_export++; sim::noPreemptEnter(); guardHostDepth++; }
   return 1;
 }
 void __wrap___cxa_guard_release(uint64_t* gd) {
   *(volatile char*)gd = 1;
-  if (!inTask()) return;
-  HostG h; mutexUnlock(gd);
+  if (inTask() && guardHostDepth > 0) { guardHostDepth--; sim::noPreemptLeave(); g_host_depth_export--; }
 }
-void __wrap___cxa_guard_abort(uint64_t* gd) { if (!inTask()) return; HostG h; mutexUnlock(gd); }
+void __wrap___cxa_guard_abort(uint64_t* gd) { if (inTask() && guardHostDepth > 0) { guardHostDepth--; sim::noPreemptLeave(); g_host_depth_export--; } }
 
 }
